@@ -224,10 +224,12 @@ impl SendingData {
                                 radio,
                                 ms,
                             ),
-                            // anything other than TxComplete is unexpected
-                            _ => {
-                                panic!("SendingData: Unexpected radio response");
-                            }
+                            // anything other than TxComplete is unexpected: report it and keep
+                            // waiting for the transmission to complete
+                            _ => (
+                                State::SendingData(self),
+                                Err(Error::UnexpectedRadioResponse.into()),
+                            ),
                         }
                     }
                     Err(e) => (State::SendingData(self), Err(super::Error::Radio(e))),
